@@ -11,6 +11,10 @@ leaves a choice (how many copies a client with several matching subscriptions
 gets, which refusal applies when a CONNECT has several defects, packet
 identifiers and DUP of forwarded messages) the output says so and the oracle
 (lib/vcheck/props_broker.py) checks membership.
+
+A client identifier has at most one live connection: a CONNECT that carries the
+identifier of a live connection ends that connection first (`takeOver`,
+[MQTT-3.1.4-2]).
 -/
 import Mqtt.Iface.Broker
 import Mqtt.Spec.Match
@@ -47,11 +51,6 @@ structure S where
   stored : List (Bytes × List (Bytes × Nat) × List (Nat × Bool × Pub)) := []
     -- persistent sessions: client id ↦ subscriptions (filter, granted) and open inbound QoS 2 exchanges
   conns  : List Conn := []
-  /-- two live connections have presented the same client identifier.  MQTT 3.1.1
-  requires the server to disconnect the older one; this broker keeps both, and
-  none of the properties says what their shared session then does: from here on
-  the specification leaves every outcome open (until the next reset). -/
-  overlap : Bool := false
 deriving Repr
 
 /-- expected effects of one event -/
@@ -134,22 +133,44 @@ def subCode (f : Bytes) (q : Nat) : Nat := if validFilter f && q ≤ 2 then min 
 def addHeld (held : List Held) (o : Nat) (f : Bytes) (g : Nat) : List Held :=
   held.filter (fun h => !(h.owner == o && h.filter == f)) ++ [⟨o, f, g⟩]
 
+/-- the first packet of connection `c`, once an existing connection of the same
+client has been disconnected (`takeOver`) -/
+def first (s : S) (c : Nat) (f : First) (authOk : Bool) : S × List SOut :=
+  match f with
+  | .garbage | .other _ => (s, [.refused c [none]])
+  | .connect req =>
+    let rs := refusals req authOk
+    if !rs.isEmpty then (s, [.refused c rs]) else
+    let cid := if req.clientId.isEmpty then ("\x00anon".toUTF8.toList ++ (toString c).toUTF8.toList) else req.clientId
+    let clean := req.clean || req.clientId.isEmpty
+    let prior := if clean then none else s.stored.lookup cid
+    let s1 : S := { s with stored := if clean then s.stored.filter (fun p => p.1 != cid)
+                                      else (cid, prior.getD ([], [])) :: s.stored.filter (fun p => p.1 != cid) }
+    let s2 := setConn s1 ⟨c, cid, clean, req.will, (prior.getD ([], [])).2⟩
+    let s3 : S := { s2 with held := (prior.getD ([], [])).1.foldl (fun h p => addHeld h c p.1 p.2) s2.held }
+    (s3, [.send c (.connack prior.isSome 0)])
+
+/-- [MQTT-3.1.4-2] "If the ClientId represents a Client already connected to the
+Server then the Server MUST disconnect the existing Client": an acceptable
+CONNECT that carries the client identifier of a live connection ends that
+connection first - not gracefully, the existing client did not send DISCONNECT:
+its will is published, its subscriptions stop, its session is kept or discarded
+as for any other end of a connection.  (An empty identifier stands for a fresh
+unique one and never meets an existing client.) -/
+def takeOver (s : S) (f : First) (authOk : Bool) : S × List SOut :=
+  match f with
+  | .connect req =>
+    if !(refusals req authOk).isEmpty || req.clientId.isEmpty then (s, []) else
+    match s.conns.find? (fun x => x.cid == req.clientId) with
+    | some old => endConn s old.id false
+    | none => (s, [])
+  | _ => (s, [])
+
 def step1 (s : S) : Ev → S × List SOut
   | .first c f authOk =>
-    match f with
-    | .garbage | .other _ => (s, [.refused c [none]])
-    | .connect req =>
-      let rs := refusals req authOk
-      if !rs.isEmpty then (s, [.refused c rs]) else
-      let cid := if req.clientId.isEmpty then ("\x00anon".toUTF8.toList ++ (toString c).toUTF8.toList) else req.clientId
-      let clean := req.clean || req.clientId.isEmpty
-      let prior := if clean then none else s.stored.lookup cid
-      let s1 : S := { s with stored := if clean then s.stored.filter (fun p => p.1 != cid)
-                                        else (cid, prior.getD ([], [])) :: s.stored.filter (fun p => p.1 != cid) }
-      let s2 := setConn s1 ⟨c, cid, clean, req.will, (prior.getD ([], [])).2⟩
-      let s3 : S := { s2 with held := (prior.getD ([], [])).1.foldl (fun h p => addHeld h c p.1 p.2) s2.held,
-                              overlap := s.overlap || s.conns.any (fun x => x.cid == cid) }
-      (s3, [.send c (.connack prior.isSome 0)])
+    let (s0, o0) := takeOver s f authOk
+    let (s1, o1) := first s0 c f authOk
+    (s1, o0 ++ o1)
   | .packet c p =>
     match getConn s c with
     | none => (s, [.unspecified])
@@ -200,8 +221,6 @@ def step1 (s : S) : Ev → S × List SOut
   | .srvUnsub cb f =>
     ({ s with held := s.held.filter (fun h => !(h.owner == cb && h.filter == f)) }, [.unspecified])
 
-def step (s : S) (e : Ev) : S × List SOut :=
-  let (s', o) := step1 s e
-  if s.overlap then (s', [.unspecified]) else (s', o)
+def step (s : S) (e : Ev) : S × List SOut := step1 s e
 
 end Mqtt.Spec.Broker
